@@ -152,13 +152,18 @@ theorem injFile_count (w : Tape.World) (src : Str) (hsrc : CleanSrc src) (st : I
         intro k' _; rw [newOn_self]; rfl
       · rename_i h3
         rw [if_neg h3]
-        obtain ⟨s2, hs2, hcount⟩ := injWriteFile_count (splitSource src).1
-          (dispatch (splitSource src).1 (splitSource src).2.1 (splitSource src).2.2.1).2.2
-          (dispatch (splitSource src).1 (splitSource src).2.1 (splitSource src).2.2.1).1
-          (dispatch (splitSource src).1 (splitSource src).2.1 (splitSource src).2.2.1).2.1 data hname st h hc
-        rw [hs2] at hf
-        cases hf
-        exact hcount
+        split at hf
+        · rename_i ha; rw [if_pos ha]; cases hf
+          intro k' _; rw [newOn_self]; rfl
+        · rename_i ha
+          rw [if_neg ha]
+          obtain ⟨s2, hs2, hcount⟩ := injWriteFile_count (splitSource src).1
+            (dispatch (splitSource src).1 (splitSource src).2.1 (splitSource src).2.2.1).2.2
+            (dispatch (splitSource src).1 (splitSource src).2.1 (splitSource src).2.2.1).1
+            (dispatch (splitSource src).1 (splitSource src).2.1 (splitSource src).2.2.1).2.1 data hname st h hc
+          rw [hs2] at hf
+          cases hf
+          exact hcount
 
 theorem injLoop_count (w : Tape.World) : ∀ (srcs : List Str) (st : Inj), (∀ src ∈ srcs, CleanSrc src) → ImgOk st.img → st.cur < 4 →
     ∃ st', injLoop w srcs st = .ok st' ∧ ImgOk st'.img ∧ Keeps st.img st'.img
